@@ -69,7 +69,15 @@ def dupCollision (c : ExecCase) : Bool :=
   let reach := (c.req.flatMap (reachable c.w)).eraseDups
   c.dups.any (fun (f, k) => reach.contains f && c.dups.any (fun (g, k') => g != f && k' == k && reach.contains g))
 
+/-- `dpcompile par=<n> req=<x|dp,x>`: the resolver supplies a CUSTOM google/protobuf/descriptor.proto
+    that imports x.proto; every other file then depends on descriptor.proto implicitly
+    (compiler.go asFile, `wantsDescriptorProto`). That implicit edge is outside the LTS (the model
+    answers `nondet`); the oracle only demands what C06 says: the call returns, and since x.proto does
+    not import anything, no import cycle may be reported. -/
+def isDpCompile (line : String) : Bool := (words line).head? == some "dpcompile"
+
 def execModel (line : String) : String :=
+  if isDpCompile line then "nondet" else
   match parseExec line with
   | none => "bad-op"
   | some c =>
@@ -108,7 +116,14 @@ def parseEv (s : String) : Option Ev :=
 def field (ans k : String) : Option String :=
   (ans.splitOn " ").findSome? (fun w => if w.startsWith (k ++ "=") then some (w.drop (k.length + 1)).toString else none)
 
+def dpSpec (ans : String) : String :=
+  if ans.startsWith "nondet ~ hang" then "fails implicit-descriptor-dependency hang (Compile returned only when the watchdog cancelled the context)"
+  else if ans.startsWith "nondet ~ cycle" then "fails implicit-descriptor-dependency false-cycle (an import cycle is reported although no file imports descriptor.proto)"
+  else if ans.startsWith "nondet ~ ok" then "holds"
+  else s!"fails implicit-descriptor-dependency unexpected {ans}"
+
 def execSpec (line ans : String) : String :=
+  if isDpCompile line then dpSpec ans else
   match parseExec line with
   | none => "skip"
   | some c =>
